@@ -29,6 +29,7 @@ def run(repo, run, tier):
     # a right-hand side that starts returning nan/inf must end in the integration-failure error, not in recorded NaN rows
     from .c05 import nan_rejection
     nan_rejection(repo, run, rule_id="C12.8")
+    no_swallowing(repo, run)
 
 
 def _hnames(h):
@@ -217,3 +218,51 @@ def trim(repo, run, m):
     run.judged(rid, "trim slices: %s" % got, ok=ok2)
     if not ok2:
         run.report("C12.6", DS, tr, "__trim_soln_space does not cut both buffers to [:counter + 1]", text="trim slices %s" % got)
+
+
+# ------------------------------------------------------------------------------------------------
+BROAD = {"Exception", "BaseException", "<bare>", "RuntimeError", "ArithmeticError", "StandardError"}
+SWALLOW_EXEMPT = {
+    ("desolver/differential_system.py", "OdeSystem.integrate"): "the one place where failures are converted (rule C12.1 judges its handlers)",
+    ("desolver/differential_system.py", "DiffRHS.__init__"): "falls back to str(rhs) when building the wrapper's textual representation at construction; "
+                                                             "no integration is in progress",
+}
+
+
+def no_swallowing(repo, run):
+    """'If the right-hand side, a callback or an event function raises at any point ... the call raises the integration-failure error carrying the original
+    cause': between the user's code and integrate()'s own handler nothing may absorb an arbitrary exception.  Every `except` in the package either names
+    specific numerical failure classes (linear-algebra errors, ValueError from the stage solver, MemoryError, ...) or re-raises on every path."""
+    rid = run.rule("C12.9", "no handler between user code and integrate() absorbs arbitrary exceptions: every `except` outside integrate() either names specific "
+                            "classes (nothing as broad as Exception / BaseException / RuntimeError / bare) or ends every path with a re-raise", floor=5)
+
+    def reraises(body):
+        """does every path through the handler body end in a raise?"""
+        if not body:
+            return False
+        last = body[-1]
+        if isinstance(last, ast.Raise):
+            return True
+        if isinstance(last, ast.If) and last.orelse:
+            return reraises(last.body) and reraises(last.orelse)
+        return False
+
+    for rel, mod in sorted(repo.modules.items()):
+        for q, fn in sorted(mod.index.items()):
+            if not isinstance(fn, ast.FunctionDef):
+                continue
+            for t in walk_no_nested(fn):
+                if not isinstance(t, ast.Try):
+                    continue
+                for h in t.handlers:
+                    names = _hnames(h)
+                    broad = sorted(set(names) & BROAD)
+                    if (rel, q) in SWALLOW_EXEMPT:
+                        run.judged(rid, "%s: except %s (exempt: %s)" % (q, "/".join(names), SWALLOW_EXEMPT[(rel, q)][:60]), nontrivial=False)
+                        continue
+                    ok = not broad or reraises(h.body)
+                    run.judged(rid, "%s: except %s%s" % (q, "/".join(names), " (re-raises)" if reraises(h.body) else ""), ok=ok)
+                    if not ok:
+                        run.report("C12.9", rel, h, "`except %s` in %s does not re-raise: an exception raised by the user's right-hand side (Jacobian, event function) inside this "
+                                                    "`try` is absorbed here, the step is recomputed and integrate() can return normally -- the failure never reaches the "
+                                                    "caller as FailedIntegration with its cause" % ("/".join(names), q), text="except %s swallows" % "/".join(names))
